@@ -20,6 +20,7 @@ struct SessionKeyContext {
     std::array<std::uint8_t, 32> current_key{};
     std::uint64_t counter{0};
     std::chrono::steady_clock::time_point last_rotation{};
+    std::chrono::steady_clock::time_point established{};
 };
 
 class KeyManager {
@@ -44,8 +45,7 @@ private:
     std::unordered_map<std::string, SessionKeyContext> contexts_;
 
     static std::array<std::uint8_t, 32> derive_key(const crypto::Key& shared_secret,
-                                                   std::uint64_t counter,
-                                                   std::chrono::steady_clock::time_point timestamp);
+                                                   std::uint64_t counter);
 };
 
 }  // namespace ephemeralnet::network
